@@ -56,7 +56,8 @@ def shards(tier):
 
 # operation alphabet on ONE mapper object: registrations of two keys with four types in every argument form, and clear()
 MAP_KEYS = [(5, 9), (63, 31)]
-MAP_OPS = [("add", k, t, f) for k in range(2) for t in (1, 3, 4, 6) for f in ("int", "objs", "module")] + [("clear",)]
+MAP_OPS = [("add", k, t, f) for k in range(2) for t in (1, 3, 4, 6) for f in ("int", "objs", "module")] + [("clear",)] + \
+    [("set", k, t) for k in range(2) for t in (1, 4)] + [("del", k) for k in range(2)]      # ... and edits of the live dict the mapper hands out as .mapping
 
 
 def apply_map_op(m, ref, op):
@@ -65,6 +66,14 @@ def apply_map_op(m, ref, op):
     if op[0] == "clear":
         m.clear()
         ref.clear()
+        return
+    if op[0] == "set":
+        m.mapping[MAP_KEYS[op[1]]] = op[2]
+        ref[MAP_KEYS[op[1]]] = op[2]
+        return
+    if op[0] == "del":
+        m.mapping.pop(MAP_KEYS[op[1]], None)
+        ref.pop(MAP_KEYS[op[1]], None)
         return
     _, k, t, f = op
     s, i = MAP_KEYS[k]
